@@ -90,6 +90,7 @@ func Junk() []junkT {
 		{"func2", Sig(L(tInt, tStr), L(tBool))}, {"func-err", f0(tInt)}, {"func1-err", Sig(L(tInt), L(tStr, tErr))},
 		{"func-func", Sig(L(tInt), L(Sig(L(tStr), L(tBool))))}, {"func-chan", Sig(L(tInt), L(Chan(2, tStr)))},
 		{"func-2res", Sig(L(tInt), L(tStr, tBool))},
+		{"func1-void", Sig(L(tInt), nil)}, {"func0-1res", Sig(nil, L(tInt))}, {"func2-void", Sig(L(tInt, tStr), nil)},
 		{"iface", tIface}, {"iface1", Iface(1)}, {"error", tErr}, {"named-error", NamedErr(4, Struct(tInt))},
 		{"unsafeptr", tUnsafe},
 		{"nil", tNil}, {"u-int", B("u-int")}, {"u-string", B("u-string")}, {"u-bool", B("u-bool")}, {"u-float", B("u-float")},
@@ -189,7 +190,7 @@ func Cases(r *hx.Rand, tier string) []Case {
 					args := append([]*Ty{}, base...)
 					args[i] = j.t
 					c := Case{p, args, "subst/" + j.name}
-					if bi == 0 && (j.name == "int" || j.name == "nil" || j.name == "variadic-pred" || j.name == "chan" || j.name == "func0") {
+					if bi == 0 && (j.name == "int" || j.name == "nil" || j.name == "variadic-pred" || j.name == "chan" || j.name == "func0" || j.name == "func1-void" || j.name == "func0-1res") {
 						must = append(must, c)
 					} else {
 						pool = append(pool, c)
